@@ -18,7 +18,7 @@ LEVEL = 'exploration'
 RULE = ('case = block of cells of the matrix (primary flags, subkey flags..., operation, enforcement, form); one evaluation per cell; non-trivial cell = at least '
         'two components or a refusal expected; distinct = distinct cell descriptors (digest)')
 ASSUMPTIONS = ['flag sets are read from the most recent self-signature of each component through public attributes', 'when several components qualify any of them may be used (the model only requires that the one used qualifies)']
-MIN_COUNTERS = {'quick': {'cells': 3000, 'refusals_expected_and_seen': 350, 'components_confirmed_cryptographically': 1200, 'form_cells': 120, 'forms_after_unlock_attempts': 12, 'aliased_set_cells': 6},
+MIN_COUNTERS = {'quick': {'cells': 3000, 'refusals_expected_and_seen': 350, 'components_confirmed_cryptographically': 1200, 'form_cells': 120, 'forms_after_unlock_attempts': 12, 'aliased_set_cells': 6, 'subkey_object_cells': 60},
                 'thorough': {'cells': 12000}}
 BUDGET = {'quick': (600, 1500), 'thorough': (1800, 3600)}
 TECHNIQUE = 'runtime monitoring: exhaustive policy-matrix enumeration against a policy model; the component actually used is confirmed cryptographically by the reference'
@@ -67,6 +67,7 @@ def cases(tier, seed):
     cs.append({'t': 'noident'})
     cs.append({'t': 'reflag'})
     cs.append({'t': 'aliased'})
+    cs.append({'t': 'onsubkey'})
     cs.append({'t': 'unhashed'})
     return cs
 
@@ -599,6 +600,54 @@ def _aliased(ctx, d, pgpy):
             sv = kk.pubkey.verify(kk.pubkey) if form == 'live' else kk.verify(kk)
             if not sv:
                 ctx.fail('self-signatures-fail', dict(where, bad=len(list(sv.bad_signatures))))
+    ctx.nontrivial(d)
+
+
+def _onsubkey(ctx, d, pgpy):
+    """operations called on a SUBKEY object itself (not on the key that owns it): the subkey's own binding flags decide - a primary key's implicit
+    ability to certify does not extend to its subkeys"""
+    from pgpy.constants import KeyFlags, CompressionAlgorithm
+    other = sigwork.target_key()
+    opub = other.pubkey
+    msg = pgpy.PGPMessage.new('on the subkey', compression=CompressionAlgorithm.Uncompressed)
+    FS = [('Sign',), ('Authentication',), ('Sign', 'Certify'), ('Certify',), ()]
+    for form in ('live', 'reimported'):
+        k = pool.pgpy_key('ed25519_0', uid='Owner Of Subkeys', fresh=True)
+        names = ['ed25519_1', 'ecdsa_p256_1', 'rsa1024_1', 'ed25519_2', 'ed25519_3']
+        for n_, fl in zip(names, FS):
+            k.add_subkey(pool.pgpy_bare(n_), usage={getattr(KeyFlags, f) for f in fl})
+        k.add_subkey(pool.pgpy_bare('cv25519_1'), usage={KeyFlags.EncryptCommunications})
+        if form == 'reimported':
+            k = pgpy.PGPKey.from_blob(bytes(k))[0]
+        kp = k.pubkey
+        for n_, fl in list(zip(names, FS)) + [('cv25519_1', ('EncryptCommunications',))]:
+            sk = k.subkeys[pool.pgpy_bare(n_).fingerprint.keyid]
+            ops = [('certify-uid', 'Certify', lambda: sk.certify(opub.userids[0])), ('certify-key', 'Certify', lambda: sk.certify(opub)),
+                   ('certify-own-uid', 'Certify', lambda: sk.certify(kp.userids[0])), ('revoke-key', 'Certify', lambda: sk.revoke(kp)),
+                   ('revoke-uid', 'Certify', lambda: sk.revoke(kp.userids[0]))]
+            if n_ != 'cv25519_1':
+                ops.append(('sign', 'Sign', lambda: sk.sign('on the subkey')))
+            for opname, need, f in ops:
+                ctx.count('cells')
+                ctx.count('subkey_object_cells')
+                ctx.count('evaluations')
+                where = {'form': form, 'subkey': n_, 'flags': list(fl), 'op': opname}
+                allowed = need in fl
+                try:
+                    r_ = f()
+                except pgpy.errors.PGPError as e:
+                    if allowed:
+                        ctx.fail('capable-component-refused', dict(where, err=str(e)[:120]))
+                    else:
+                        ctx.count('refusals_expected_and_seen')
+                    continue
+                except Exception as e:
+                    ctx.outcome('onsubkey_error:%s:%s' % (opname, type(e).__name__))
+                    if not allowed:
+                        ctx.count('refusals_expected_and_seen')
+                    continue
+                if not allowed:
+                    ctx.fail('operation-carried-out-by-component-without-the-capability', dict(where, signer=getattr(r_, 'signer', None)))
     ctx.nontrivial(d)
 
 
